@@ -115,14 +115,19 @@ impl StructParser {
         let fields = item_enum
             .variants
             .iter()
-            .map(|variant| {
+            .filter_map(|variant| {
                 // serde names a raw identifier (r#type) without its prefix
                 let variant_name = variant.ident.unraw().to_string();
 
                 // Parse variant-level serde attributes
                 let variant_serde_attrs = self.serde_parser.parse_field_serde_attrs(&variant.attrs);
 
-                match &variant.fields {
+                // serde neither writes nor accepts a skipped variant
+                if variant_serde_attrs.skip {
+                    return None;
+                }
+
+                Some(match &variant.fields {
                     syn::Fields::Unit => {
                         // Unit variant: Variant
                         FieldInfo {
@@ -169,7 +174,7 @@ impl StructParser {
                             ),
                         }
                     }
-                }
+                })
             })
             .collect();
 
